@@ -277,6 +277,9 @@ pub fn run_pbt(ctx: &Ctx, check: &dyn Check, cases: u64) -> Part {
                 let mut runner = TestRunner::new_with_rng(config, TestRng::from_seed(RngAlgorithm::ChaCha, &seed));
                 let local = Mutex::new(Part { name: check.part().to_string(), ..Default::default() });
                 let failing_sig: Mutex<Option<String>> = Mutex::new(None);
+                // the failure as first observed: kept if the shrunk case does not fail again
+                // (a timing-dependent violation must not vanish in the final re-run)
+                let first: Mutex<Option<(Vec<u8>, Failure)>> = Mutex::new(None);
                 let strategy = vec(any::<u8>(), 0..=check.max_len());
                 let result = runner.run(&strategy, |bytes| {
                     let shrinking = failing_sig.lock().unwrap().clone();
@@ -288,6 +291,7 @@ pub fn run_pbt(ctx: &Ctx, check: &dyn Check, cases: u64) -> Part {
                         None => {
                             if let Some(f) = account(&mut local.lock().unwrap(), ctx, check, &bytes, &r) {
                                 *failing_sig.lock().unwrap() = Some(f.sig.clone());
+                                *first.lock().unwrap() = Some((bytes.clone(), f.clone()));
                                 shared.stop.store(true, Ordering::Relaxed);
                                 return Err(TestCaseError::fail(f.sig));
                             }
@@ -302,7 +306,13 @@ pub fn run_pbt(ctx: &Ctx, check: &dyn Check, cases: u64) -> Part {
                 if let Err(TestError::Fail(_, bytes)) = result {
                     let sig = failing_sig.lock().unwrap().clone();
                     let r = check.run(&bytes);
-                    if let Some(f) = unknown_failure(ctx, &r, sig.as_deref()) {
+                    let confirmed = unknown_failure(ctx, &r, sig.as_deref()).map(|f| (bytes, f)).or_else(|| {
+                        first.lock().unwrap().take().map(|(b, mut f)| {
+                            f.what = format!("{} [observed once; the shrunk case did not fail again when re-run, so the original case is kept: schedule or timing dependent]", f.what);
+                            (b, f)
+                        })
+                    });
+                    if let Some((bytes, f)) = confirmed {
                         let mut g = found.lock().unwrap();
                         let better = match &*g {
                             None => true,
